@@ -234,7 +234,8 @@ def impExplain (f : Array String) : String :=
                   && e.mss == k.mss && e.wscale == k.wscale && e.ts == k.ts && e.eolPad == k.eolPad && e.hdrLen == k.hdrLen
                   && e.hasPayload == k.hasPayload && e.quirks.toMask == k.quirks.toMask then "ok"
               else s!"EXTRACT(model={e.quirks.toMask},{natList e.layout},{e.mss},{e.wscale},{e.hdrLen};bytes={k.quirks.toMask},{natList k.layout},{k.mss},{k.wscale},{k.hdrLen})"
-      s!"{verdict} | explain={expl}"
+      let covered := admissibleB base && supportedB s base && decide (0 ≤ hops) && decide (hops < (s.ttl : Int)) && decide (hops ≤ maxDist)
+      s!"{verdict} | explain={expl} thm={if covered then 1 else 0}"
 
 /-- what the model does with inputs on which the real code raised: does the model raise too -/
 def impModelErr (f : Array String) : String :=
